@@ -235,11 +235,25 @@ impl Lockstep {
                                         != Some(*v)
                                 });
                                 if !changed {
-                                    self.c03(format!(
+                                    let deps: Vec<Dep> =
+                                        prev.iter().map(|(d, _)| *d).collect();
+                                    let what = format!(
                                         "{key:?} re-executed although every \
                                          dependency of its previous run \
                                          {prev:?} still has the same value"
-                                    ));
+                                    );
+                                    if self.judge_on {
+                                        self.findings.push(Finding {
+                                            property: "C03",
+                                            step: self.step,
+                                            fstep: self.fstep,
+                                            what,
+                                            key: Some(*key),
+                                            reader: Some((*key, Some(deps))),
+                                            root: self.cur_root,
+                                            ..Default::default()
+                                        });
+                                    }
                                 }
                             }
                         }
@@ -512,6 +526,131 @@ pub async fn run_mem(p: &Program, hist: &[Op], abstract_ts: bool) -> RunResult {
         transitions: hist.len(),
         act_log: ls.act_log,
         values: ls.values,
+    }
+}
+
+#[derive(Clone, Copy, Debug, PartialEq, Eq)]
+pub struct DbConf {
+    pub cap: u64,
+    pub grouping: crate::memkv::Grouping,
+}
+
+/// Let the write-behind pipeline quiesce (deterministic phases only).
+pub fn drain_pipeline() {
+    loop {
+        let mut any = false;
+        for t in [
+            crate::store::T_SER0,
+            crate::store::T_SER1,
+            crate::store::T_COMMIT,
+            crate::store::T_NOTIFY,
+        ] {
+            any |= crate::xplore::pump(t);
+        }
+        if !any {
+            break;
+        }
+    }
+}
+
+#[derive(Debug, Default)]
+pub struct DbRun {
+    pub run: RunResult,
+    /// ordered physical commit log of the store at the end
+    pub log: Vec<Vec<crate::memkv::Op>>,
+    /// input snapshots (after the initial session and after every session)
+    pub snapshots: Vec<Ref>,
+}
+
+/// Run a history on an engine over `DbBacked<MemKv>` (inside a shuttle
+/// execution, deterministic scheduling). `Restart` = clean shutdown + new
+/// engine (new interner, new caches) on the same store; `Drain` lets the
+/// pipeline quiesce.
+pub async fn run_db(p: &Program, hist: &[Op], c: DbConf) -> DbRun {
+    crate::xplore::exploring(false);
+    ystore::set_yield_mask(0);
+    ystore::set_shadow(true);
+    let sh = Shared::new(p.clone());
+    let store = crate::memkv::new_state(c.grouping, false);
+    let mut eng = Some(rig::new_db_engine(&sh, store.clone(), c.cap, 1).await);
+    let mut ls = Lockstep::new(p.clone());
+    let mut sessions = 0u64;
+    let mut snaps = Vec::new();
+
+    let init: Vec<W> = inputs_of(p).into_iter().map(|i| W::Set(i, 0)).collect();
+    do_session(eng.as_ref().unwrap(), &sh, &mut ls, &init, true).await;
+    sessions += 1;
+    snaps.push(ls.r.clone());
+
+    let mut f = 0usize;
+    for (i, top) in hist.iter().enumerate() {
+        ls.step = i;
+        for op in top.flat() {
+            ls.fstep = f;
+            f += 1;
+            match &op {
+                Op::Session { writes, commit } => {
+                    do_session(eng.as_ref().unwrap(), &sh, &mut ls, writes, *commit)
+                        .await;
+                    sessions += 1;
+                    snaps.push(ls.r.clone());
+                }
+                Op::Query(keys) => {
+                    do_query(eng.as_ref().unwrap(), &sh, &mut ls, keys).await;
+                }
+                Op::World(cix, v) => {
+                    sh.world.lock().unwrap()[*cix as usize] = *v;
+                    ls.r.world[*cix as usize] = *v;
+                }
+                Op::Drain => drain_pipeline(),
+                Op::Restart => {
+                    // wait for a dropped session's background commit
+                    let te = eng.as_ref().unwrap().clone().tracked().await;
+                    drop(te);
+                    drop(eng.take());
+                    eng = Some(
+                        rig::new_db_engine(&sh, store.clone(), c.cap, 1).await,
+                    );
+                }
+                Op::Multi(_) => {}
+            }
+        }
+    }
+
+    let te = eng.as_ref().unwrap().clone().tracked().await;
+    drop(te);
+    drop(eng.take());
+
+    let dump = ystore::shadow_dump();
+    ystore::set_shadow(false);
+    let mut canon = canon_state(&dump, sessions, true, &ls);
+    let (content_hash, log) = {
+        let g = store.lock().unwrap();
+        (fxhash::hash64(&format!("{:?}", g.content)), g.log.clone())
+    };
+    canon.push_str(&format!(" store={content_hash:x}"));
+    // The live engine of a restarted history is NOT assumed equivalent to
+    // the never-restarted one (that is the property): histories with a
+    // restart among their last 3 operations are kept apart.
+    let flat = flatten(hist);
+    if let Some(pos) = flat.iter().rposition(|o| matches!(o, Op::Restart)) {
+        let since = flat.len() - 1 - pos;
+        if since < 3 {
+            canon.push_str(&format!(" restarted-{since}-ops-ago"));
+        }
+    }
+
+    DbRun {
+        run: RunResult {
+            findings: ls.findings,
+            canon,
+            activations: ls.activations,
+            transitions: hist.len(),
+            act_log: ls.act_log,
+            values: ls.values,
+        },
+        log,
+        snapshots: snaps,
     }
 }
 
@@ -844,6 +983,49 @@ pub fn snapshots(p: &Program, h: &[Op]) -> (Vec<Ref>, Vec<usize>) {
 ///   repaired, and the root has not been repaired since.
 pub fn classify(p: &Program, h: &[Op], acts: &[(usize, Key)], f: &Finding) -> Vec<String> {
     let mut tags = Vec::new();
+    if f.property == "C03" {
+        // F10d: a projection re-run by backward projection although the
+        // firewall/projection it reads is back at the value it saw
+        if let (Some(k @ Key::C(j)), Some((_, Some(deps)))) = (f.key, &f.reader) {
+            if p.nodes[j as usize].style == crate::pq::Style::P {
+                let hf = flatten(h);
+                if f.fstep < hf.len() {
+                    let (snaps, at) = snapshots(p, &hf);
+                    let t = at[f.fstep];
+                    let last_run = acts
+                        .iter()
+                        .filter(|(s, y)| *y == k && *s < f.fstep)
+                        .map(|(s, _)| at[*s])
+                        .max();
+                    if let Some(j0) = last_run {
+                        let fill = |r: &Ref| {
+                            let mut r = r.clone();
+                            for i in 0..r.xsnap.len() {
+                                if r.xsnap[i].is_none() {
+                                    r.xsnap[i] = Some(r.world[i]);
+                                }
+                            }
+                            r
+                        };
+                        let now = fill(&snaps[t]);
+                        let flipped = (j0 + 1..t).any(|jm| {
+                            let mid = fill(&snaps[jm]);
+                            deps.iter().any(|d| {
+                                mid.eval(p, rig::key_of_dep(*d))
+                                    != now.eval(p, rig::key_of_dep(*d))
+                            })
+                        });
+                        if flipped {
+                            tags.push(
+                                "F10d-projection-rerun-after-revert".to_string(),
+                            );
+                        }
+                    }
+                }
+            }
+        }
+        return tags;
+    }
     let (Some(x), Some(v)) = (f.key, f.got) else { return tags };
     let h = &flatten(h)[..];
     let fstep = f.fstep;
@@ -852,9 +1034,14 @@ pub fn classify(p: &Program, h: &[Op], acts: &[(usize, Key)], f: &Finding) -> Ve
     }
     let (snaps, at) = snapshots(p, h);
     let t = at[fstep];
+    // external inputs: the value of the last refresh, else the world value
     let with_x = |r: &Ref| {
         let mut r = r.clone();
-        r.xsnap = r.world.map(Some);
+        for i in 0..r.xsnap.len() {
+            if r.xsnap[i].is_none() {
+                r.xsnap[i] = Some(r.world[i]);
+            }
+        }
         r
     };
     let now = with_x(&snaps[t]);
